@@ -89,19 +89,12 @@ def rule_pool_replaceable(ctx: Ctx, out: Collector) -> None:
     p = ctx.p
     regs = _registries(ctx)
     for kind, ci in regs.items():
-        ready = ci.methods['is_ready']
+        from .ex import _ready_facts
+        ready, fields, flags, pool_field = _ready_facts(ctx, ci)
+        flags = flags or ['_shutdown']
         reg = p.lookup_method(ci, 'register_pool_executor')
         if reg is None:
             raise AnalysisError('register_pool_executor not found (EX-9 anchor vanished)')
-        flags = sorted({n.attr for n in ast.walk(ready.node) if isinstance(n, ast.Attribute) and isinstance(n.value, ast.Attribute)
-                        and isinstance(n.value.value, ast.Name) and n.value.value.id == 'self'}) or ['_shutdown']
-        fields = sorted({n.attr for n in ast.walk(ready.node) if isinstance(n, ast.Attribute) and isinstance(n.value, ast.Name)
-                         and n.value.id == 'self'})
-        pool_fields = sorted({n.value.attr for n in ast.walk(ready.node) if isinstance(n, ast.Attribute) and isinstance(n.value, ast.Attribute)
-                              and isinstance(n.value.value, ast.Name) and n.value.value.id == 'self'})
-        if len(pool_fields) != 1:
-            raise AnalysisError(f'{ready.fid}: the field holding the pool cannot be identified (EX-9 anchor vanished)')
-        pool_field = pool_fields[0]
         table = {}
         problems = []
         for state in ('rejected', 'alive'):
